@@ -175,6 +175,24 @@ def build_cases(pid, sources, rep: Report):
     return cases
 
 
+def one_setup_per_nest(toks):
+    depth, count = 0, 0
+    for t in toks:
+        if t == "F":
+            if depth == 0:
+                count = 0
+            depth += 1
+        elif t == "X":
+            depth += 1 if depth > 0 else 0
+        elif t == ")":
+            depth -= 1 if depth > 0 else 0
+        elif t.startswith("I") and depth > 0:
+            count += 1
+            if count > 1:
+                return False
+    return True
+
+
 def run(pid: str, tier: str, seed: int, selftest=False, replay=None) -> int:
     rep = Report(pid, tier, seed)
     known = KnownFindings()
@@ -186,6 +204,18 @@ def run(pid: str, tier: str, seed: int, selftest=False, replay=None) -> int:
             sources.append((name, text, None, None))
         for name, text in corpus_texts():
             sources.append((name, text, None, None))
+        # exhaustive small scope: every program skeleton TLC enumerates from spec/ProgGen.tla
+        from gen_small import render, tlc_programs
+        rg, progs = tlc_programs(pid, 3, 3 if tier == "quick" else 4, 2)
+        rep.add_tlc(rg)
+        n_small = 0
+        for toks in progs:
+            if pid == "C06" and not one_setup_per_nest(toks):
+                continue     # known finding C06 (loop rotation): at most one setup per accelerator per outermost loop nest
+            text, argdom, opq = render(toks)
+            sources.append(("small:" + " ".join(toks), text, argdom, opq))
+            n_small += 1
+        rep.extra["small_scope_programs"] = n_small
         for k in range(n_gen):
             kw = {}
             if pid == "C06":
@@ -195,7 +225,8 @@ def run(pid: str, tier: str, seed: int, selftest=False, replay=None) -> int:
             if pid == "C07" and k % 2 == 0:
                 sources.append((f"gen:{seed}:{k}:pre", text, argdom, opq))
     cases = build_cases(pid, sources, rep)
-    rep.rule = (f"programs = witnesses + repository accfg corpus + {n_gen} generated (gen_accfg, seed {seed}); each case is "
+    rep.rule = (f"programs = witnesses + repository accfg corpus + every skeleton of <= {3 if tier == 'quick' else 4} nodes enumerated by TLC (ProgGen.tla) + "
+                f"{n_gen} generated (gen_accfg, seed {seed}); each case is "
                 f"(image before {passname}, image after the real {passname}); TLC enumerates every oracle (arg values, trip counts, "
                 "branch outcomes, opaque results) of the case; non-trivial = case with >= 1 launch event in machine A")
     CH = 400
